@@ -87,7 +87,7 @@ class C02(Prop):
                    'equal per-rank batch sizes and gradients averaged across ranks before step() (the documented data-parallel precondition)',
                    'relations 3 and 4 are decided up to 16 sqrt(n) eps32 kappa accumulated over steps; cases looser than 5e-2 count as trivial for them']
     examples = {'quick': 50, 'thorough': 400}
-    shards = {'quick': 4, 'thorough': 16}
+    shards = {'quick': 8, 'thorough': 16}
     shrink_budget_s = {'quick': 30.0, 'thorough': 180.0}
     required_labels = {'quick': ['nontrivial=True', 'strategyA=HYBRID', 'strategyA=MEM', 'strategyA=COMM'],
                        'thorough': ['nontrivial=True', 'strategyA=HYBRID', 'strategyA=MEM', 'strategyA=COMM', 'bucketed=True', 'symmetry=True']}
